@@ -71,7 +71,7 @@ def _close_loops(M, close):
     return out, owner
 
 
-def _close_loop_rule(chk, M, close, loops, W):
+def _close_loop_rule(chk, M, close, loops, W, owner=None):
     """empty list: the loop ends (and nothing is stopped or joined); a listed thread: one element of the list is taken,
     stopped unless ``wait`` and joined, and the loop goes on - whatever the spelling of the emptiness test"""
     from ..dtable import Facts, walk, holds, RAISE
@@ -82,6 +82,10 @@ def _close_loop_rule(chk, M, close, loops, W):
     if not ok:
         return
     loop = loops[0]
+    # a loop that is the last statement of a helper method: ``return`` there only leaves the helper, like ``break``
+    own = (owner or {}).get(id(loop), "close")
+    own_fn = close if own == "close" else M.methods[own]
+    returns_like_break = own != "close" and docstring_free(own_fn.body)[-1] is loop
 
     def is_elem(v, names):
         if isinstance(v, ast.Name):
@@ -126,6 +130,8 @@ def _close_loop_rule(chk, M, close, loops, W):
     try:
         for wait in (True, False):
             end, calls, _ = scenario(0, wait)
+            if end == "return" and returns_like_break:
+                end = "break"
             chk.decide(end in ("exit", "break") and not calls, "C17.close", where,
                        "no thread listed (wait=%s): the loop ends" % wait,
                        why="with an empty list the loop must stop without touching a thread (it %s, calls %s)"
@@ -269,7 +275,7 @@ def run(chk, repo):
     chk.rule("C17.close", "close(): while threads remain: take the first under self.lock, stop it unless wait, join it; "
                           "run() epilogue: under its lock, if still listed: close the stream and thread_finished(self)")
     loops, loop_owner = _close_loops(M, close)
-    _close_loop_rule(chk, M, close, loops, W)
+    _close_loop_rule(chk, M, close, loops, W, loop_owner)
     for dn in ("__exit__", "__del__"):
         dm = M.methods.get(dn)
         if dm is not None:
